@@ -1,5 +1,12 @@
 import CharsetProof.Props.C12
+import CharsetProof.Props.C12b
 open Charset
+#print axioms Nested.good_step
+#print axioms Nested.C12_nested_safety
+#print axioms Nested.C12_nested_results
+#print axioms Nested.C12_nested_no_deadlock
+#print axioms Nested.C12_nested_step_decreases
+#print axioms Nested.C12_nested_finished_has_result
 #print axioms good_init
 #print axioms good_step
 #print axioms C12_safety
